@@ -98,7 +98,8 @@ class System:
                     i[2] = 0
 
     def start(self):
-        o = self.src.put(src=self.src_name, dst=self.dst_name, mode=self.put_mode, closure=self.put_closure)
+        o = self.src.put(src=self.src_name, dst=self.dst_name, mode=self.put_mode, closure=self.put_closure,
+                         **getattr(self, "put_kwargs", {}))
         self._note("src", o)
         return o
 
